@@ -536,20 +536,30 @@ PROBES = {"actor_seq": [{"o1": 4, "o2": 8, "o3": 4}, {"o1": 5, "o2": 7, "o3": 15
 def items(tier: str, seed: int) -> List[Dict[str, Any]]:
     quick = tier == "quick"
     out: List[Dict[str, Any]] = []
-    for eng in (0, 1):
+
+    def add(eng: int, prefix: List[str], n: int, timeout: int) -> None:
         e = "sync" if eng == 0 else "async"
+        out.append({"ob": "actor_seq", "params": {"eng": eng, "prefix": prefix, "N": n}, "timeout": timeout,
+                    "label": f"actor_seq[{e},{','.join(prefix)}+{n - len(prefix)}]"})
+
+    for eng in (0, 1):
+        # length 4, first operation SPA: sharded by the second (and, for SEND, third) operation
         for second in OPS:
             if second == "SEND":      # the addressing form multiplies this shard by 8: split it by the third operation
                 for third in OPS:
-                    out.append({"ob": "actor_seq", "params": {"eng": eng, "prefix": ["SPA", second, third], "N": 4 if quick else 5},
-                                "timeout": 300 if quick else 2400, "label": f"actor_seq[{e},SPA,{second},{third}+{1 if quick else 2}]"})
+                    add(eng, ["SPA", second, third], 4, 300)
                 continue
-            out.append({"ob": "actor_seq", "params": {"eng": eng, "prefix": ["SPA", second], "N": 4 if quick else 5},
-                        "timeout": 300 if quick else 2400, "label": f"actor_seq[{e},SPA,{second}+{2 if quick else 3}]"})
+            add(eng, ["SPA", second], 4, 300)
         for second in ("KFIN", "SPN", "SPB", "SPK"):
-            out.append({"ob": "actor_seq", "params": {"eng": eng, "prefix": ["SPN", second], "N": 4 if quick else 5},
-                        "timeout": 300 if quick else 2400, "label": f"actor_seq[{e},SPN,{second}+{2 if quick else 3}]"})
+            add(eng, ["SPN", second], 4, 300)
         for first in ("SPK", "SPB", "SPN", "SEND"):
-            out.append({"ob": "actor_seq", "params": {"eng": eng, "prefix": [first], "N": 3 if quick else 4}, "timeout": 300 if quick else 2400,
-                        "label": f"actor_seq[{e},{first}+{2 if quick else 3}]"})
+            add(eng, [first], 3, 300)
+        if not quick:
+            # length 5 for the operation pairs that set up the interesting states (two more symbolic operations + forms)
+            for second in ("SPA", "SPN", "GRND", "DSEND", "LATR", "STPA", "SPK", "SEND"):
+                for third in OPS:
+                    add(eng, ["SPA", second, third], 5, 900)
+            for first in ("SPK", "SPB", "SPN", "SEND"):
+                for second in OPS:
+                    add(eng, [first, second], 4, 600)
     return out
